@@ -6,6 +6,7 @@ from __future__ import annotations
 
 import json
 import select
+import os
 import subprocess
 import sys
 import threading
@@ -49,7 +50,8 @@ def scan(items, limit=6.0, max_hangs=5):
     start = 0
     n = len(items)
     while start < n and len(hung) < max_hangs:
-        p = subprocess.Popen([sys.executable, "-u", "-c", WORKER], stdin=subprocess.PIPE, stdout=subprocess.PIPE, stderr=subprocess.DEVNULL)
+        p = subprocess.Popen([sys.executable, "-u", "-c", WORKER], stdin=subprocess.PIPE, stdout=subprocess.PIPE, stderr=subprocess.DEVNULL,
+                             env={**os.environ, "PYTHONPATH": os.environ.get("JP_REPO", "/repo")})
         batch = items[start:]
 
         def feed(proc=p, batch=batch):
